@@ -214,11 +214,15 @@ type Case struct {
 	Status   int                 `json:"status,omitempty"` // unary client replay
 	Header   map[string][]string `json:"header,omitempty"`
 	FullLen  int                 `json:"full_len,omitempty"` // A2: length of the uncut recorded body
+	Synth    *synthSpec          `json:"synth,omitempty"`    // A2-large: the body is generated from this instead of body_hex
 
 	body []byte
 }
 
 func (c *Case) Body() []byte {
+	if c.body == nil && c.Synth != nil {
+		c.body = c.Synth.body(c.Side)
+	}
 	if c.body == nil {
 		c.body, _ = hex.DecodeString(c.BodyHex)
 		if c.body == nil {
@@ -235,6 +239,110 @@ func (c *Case) ending() string {
 	return "clean-eof"
 }
 
+// ---- A2-large: bodies with consecutive large frames ----------------------
+
+// synthSpec describes a body of len(Sizes) data frames, frame i holding a
+// StringValue whose encoding is exactly Sizes[i] bytes long and whose
+// characters are all 'A'+i, followed (response bodies only) by the OK trailer
+// frame the real server writes; cut at Cut bytes (Cut < 0: complete). The
+// parent checks once per run that the real client and server produce exactly
+// these bytes for these messages.
+type synthSpec struct {
+	Sizes []int `json:"frame_sizes"`
+	Cut   int   `json:"cut"`
+}
+
+var okTrailerFrame = []byte{0xFF, 0xFF, 0xFF, 0xFC, 0x1A, 0x02, 'O', 'K'}
+
+// largeLen is the length of the string whose StringValue encoding is size bytes long.
+func largeLen(size int) int {
+	for vl := 1; vl <= 5; vl++ {
+		l := size - 1 - vl
+		if l >= 0 && len(binary.AppendUvarint(nil, uint64(l))) == vl {
+			return l
+		}
+	}
+	panic(fmt.Sprintf("no StringValue encodes to %d bytes", size))
+}
+
+// largeString is the value of message i of a body whose frame is size bytes long.
+func largeString(i, size int) string {
+	return strings.Repeat(string(rune('A'+i)), largeLen(size))
+}
+
+func (sp *synthSpec) full(side string) []byte {
+	n := 8
+	for _, z := range sp.Sizes {
+		n += 4 + z
+	}
+	out := make([]byte, 0, n)
+	for i, z := range sp.Sizes {
+		out = binary.BigEndian.AppendUint32(out, uint32(z))
+		l := largeLen(z)
+		out = append(out, 0x0A)
+		out = binary.AppendUvarint(out, uint64(l))
+		for k := 0; k < l; k++ {
+			out = append(out, byte('A'+i))
+		}
+	}
+	if side == "client" {
+		out = append(out, okTrailerFrame...)
+	}
+	return out
+}
+
+func (sp *synthSpec) body(side string) []byte {
+	b := sp.full(side)
+	if sp.Cut >= 0 && sp.Cut <= len(b) {
+		b = b[:sp.Cut:sp.Cut]
+	}
+	return b
+}
+
+func (sp *synthSpec) name() string {
+	return strings.ReplaceAll(fmt.Sprint(sp.Sizes), " ", ",")
+}
+
+// cuts: complete; and, for every frame after the first, just after its prefix
+// plus one byte, in its middle, and one byte short of its end.
+func (sp *synthSpec) cuts() []int {
+	out := []int{-1}
+	pos := 0
+	for i, z := range sp.Sizes {
+		if i > 0 {
+			out = append(out, pos+5, pos+4+z/2, pos+4+z-1)
+		}
+		pos += 4 + z
+	}
+	return out
+}
+
+func largeSizes(tier string) [][]int {
+	const k64, m1 = 64 << 10, 1 << 20
+	out := [][]int{
+		{k64, k64, k64},
+		{k64 + 1, k64 + 1, k64 + 1},
+		{m1, m1, m1},
+		{k64, k64, k64, k64, k64, k64},
+		{m1, k64 + 1, k64, k64},
+	}
+	if tier == "thorough" {
+		out = append(out,
+			[]int{k64 + 1, k64 + 1, k64 + 1, k64 + 1, k64 + 1, k64 + 1},
+			[]int{m1, m1, m1, m1, m1, m1},
+			[]int{k64, m1, k64 + 1, m1, k64, k64},
+			[]int{4 << 20, 4 << 20, 4 << 20})
+	}
+	return out
+}
+
+type largeBase struct {
+	sizes []int
+	cut   int
+}
+
+var largeSides = []string{"client", "server"}
+
 type a2base struct {
 	rec *recording
 	cut int
@@ -249,7 +357,10 @@ type space struct {
 	deliveries []string
 	recs       []*recording
 	a2         []a2base
+	large      []largeBase
+	fullCache  map[string][]byte
 	nA1, nA2   int
+	nLarge     int
 }
 
 var sideModes = [][2]string{{"client", "stream"}, {"client", "single"}, {"server", "stream"}, {"server", "single"}}
@@ -278,10 +389,44 @@ func buildSpace(tier string) (*space, error) {
 	}
 	s.nA1 = s.hostile.len() * len(sideModes) * len(s.endingsA1) * len(s.deliveries)
 	s.nA2 = len(s.a2) * len(s.endingsA2) * len(s.deliveries)
+	for _, sz := range largeSizes(tier) {
+		for _, c := range (&synthSpec{Sizes: sz}).cuts() {
+			s.large = append(s.large, largeBase{sz, c})
+		}
+	}
+	s.fullCache = map[string][]byte{}
+	s.nLarge = len(s.large) * len(largeSides) * len(s.endingsA2) * len(s.deliveries)
 	return s, nil
 }
 
-func (s *space) total() int { return s.nA1 + s.nA2 }
+func (s *space) total() int { return s.nA1 + s.nA2 + s.nLarge }
+
+func (s *space) largeAt(i int) *Case {
+	d := i % len(s.deliveries)
+	i /= len(s.deliveries)
+	e := i % len(s.endingsA2)
+	i /= len(s.endingsA2)
+	side := largeSides[i%len(largeSides)]
+	i /= len(largeSides)
+	b := s.large[i]
+	spec := &synthSpec{Sizes: b.sizes, Cut: b.cut}
+	k := side + spec.name()
+	full, ok := s.fullCache[k]
+	if !ok {
+		full = spec.full(side)
+		s.fullCache[k] = full
+	}
+	body, where := full, "complete"
+	if b.cut >= 0 {
+		body, where = full[:b.cut:b.cut], fmt.Sprintf("cut at %d of %d", b.cut, len(full))
+	}
+	what := "response"
+	if side == "server" {
+		what = "request"
+	}
+	return &Case{Alphabet: "A2-large", Side: side, Mode: "stream", body: body, Abrupt: s.endingsA2[e], Delivery: s.deliveries[d],
+		Label: fmt.Sprintf("%s with large frames %s %s", what, spec.name(), where), FullLen: len(full), Synth: spec}
+}
 
 func (s *space) at(i int) *Case {
 	if i < s.nA1 {
@@ -296,6 +441,9 @@ func (s *space) at(i int) *Case {
 			Abrupt: s.endingsA1[e], Delivery: s.deliveries[d], Label: h.label}
 	}
 	i -= s.nA1
+	if i >= s.nA2 {
+		return s.largeAt(i - s.nA2)
+	}
 	d := i % len(s.deliveries)
 	i /= len(s.deliveries)
 	e := i % len(s.endingsA2)
@@ -314,7 +462,7 @@ func (s *space) at(i int) *Case {
 // hash identifies the case space so that parent and workers agree on it.
 func (s *space) hash() string {
 	var sb strings.Builder
-	fmt.Fprintf(&sb, "%s|%d|%d|", s.tier, s.nA1, s.nA2)
+	fmt.Fprintf(&sb, "%s|%d|%d|%d|%v|", s.tier, s.nA1, s.nA2, s.nLarge, s.large)
 	for _, r := range s.recs {
 		fmt.Fprintf(&sb, "%s/%s/%s/%x|", r.Name, r.Side, r.Mode, r.Body)
 	}
